@@ -6,7 +6,7 @@ from typing import Dict, NoReturn, Optional, Tuple
 import logging
 
 from wheatley.aliases import CallDef, JSON
-from wheatley.bell import Bell
+from wheatley.bell import Bell, MAX_BELL
 from wheatley.row_generation import RowGenerator
 from wheatley.row_generation.place_notation_generator import PlaceNotationGenerator
 from wheatley.row_generation.complib_composition_generator import (
@@ -335,9 +335,12 @@ def parse_place_notation(input_string: str) -> Tuple[int, str]:
     parts = input_string.split(":")
     if len(parts) == 2:
         stage_part = parts[0]
-        if len(stage_part) == 0 or not stage_part.isnumeric():
+        # `isdecimal` (not `isnumeric`, which also accepts characters like '²' that `int` rejects)
+        if len(stage_part) == 0 or not stage_part.isdecimal():
             raise PlaceNotationError(input_string, "Stage must be a number")
         stage = int(stage_part)
+        if stage < 1 or stage > MAX_BELL:
+            raise PlaceNotationError(input_string, f"Stage must be between 1 and {MAX_BELL}")
         place_notation = parts[1]
         if not valid_pn(place_notation):
             raise PlaceNotationError(input_string, "Place notation is invalid")
